@@ -194,12 +194,12 @@ pub fn verify<T: Type>(
     res
 }
 
-fn honest_views(inst_na: u8, ctx: &[u8], nonce: [u8; 16], key: [u8; 32]) -> Vec<AggView> {
+pub fn honest_views(inst_na: u8, ctx: &[u8], nonce: [u8; 16], key: [u8; 32]) -> Vec<AggView> {
     (0..inst_na as usize).map(|id| AggView { ctx: ctx.to_vec(), nonce, key, id }).collect()
 }
 
-fn no_vs(_: usize, _: &mut Vec<u8>) {}
-fn no_msg(_: &mut Vec<u8>) {}
+pub fn no_vs(_: usize, _: &mut Vec<u8>) {}
+pub fn no_msg(_: &mut Vec<u8>) {}
 
 /// C01: a batch of valid measurements through the whole protocol; the unsharded result must equal
 /// the plain aggregate (`plain` computes it from the measurements, as field elements mod p)
@@ -290,6 +290,10 @@ fn independence_with<T: Type>(out: &mut Out, inst: &Inst<T>, m1: &T::Measurement
     let e1 = inst.typ.encode_measurement(m1).unwrap();
     let e2 = inst.typ.encode_measurement(m2).unwrap();
     let dec = |b: &[u8]| -> Vec<T::Field> { (0..il).map(|i| T::Field::try_from(&b[i * sz..(i + 1) * sz]).unwrap()).collect() };
+    out.oracle(a.inputs[0].len() >= il * sz && b.inputs[0].len() >= il * sz, case, || format!("leader input share has {} bytes, fewer than the {} elements of the encoded measurement", a.inputs[0].len(), il));
+    if a.inputs[0].len() < il * sz || b.inputs[0].len() < il * sz {
+        return;
+    }
     let (l1, l2) = (dec(&a.inputs[0]), dec(&b.inputs[0]));
     out.oracle((0..il).all(|i| l1[i] - l2[i] == e1[i] - e2[i]), case, || "leader measurement share is not the encoding under a measurement-independent mask".into());
     // public share: only the leader's joint randomness part (index 0) may differ
@@ -304,8 +308,8 @@ fn independence_with<T: Type>(out: &mut Out, inst: &Inst<T>, m1: &T::Measurement
 }
 
 /// C18: mismatches of ctx / nonce / key / aggregator id between client and aggregators or among aggregators
-pub fn binding<T: Type>(out: &mut Out, rng: &mut Sm, inst: &Inst<T>, m: &T::Measurement) {
-    let ctx = rng.bytes(4);
+pub fn binding<T: Type>(out: &mut Out, rng: &mut Sm, inst: &Inst<T>, m: &T::Measurement, ctx_len: usize) {
+    let ctx = rng.bytes(ctx_len);
     let nonce: [u8; 16] = rng.bytes(16).try_into().unwrap();
     let key: [u8; 32] = rng.bytes(32).try_into().unwrap();
     let rs = if inst.typ.joint_rand_len() > 0 { 2 } else { 1 } * inst.na as usize * 32;
@@ -315,8 +319,14 @@ pub fn binding<T: Type>(out: &mut Out, rng: &mut Sm, inst: &Inst<T>, m: &T::Meas
     out.oracle(honest.failed_at.is_none(), || format!("binding {} honest", inst.spec), || "honest report rejected".into());
     let has_jr = inst.typ.joint_rand_len() > 0;
     let na = inst.na as usize;
+    // long contexts differ only in their last byte (every byte of the context is bound, not a prefix of it);
+    // short ones by an appended byte
     let mut other_ctx = ctx.clone();
-    other_ctx.push(1);
+    if ctx_len >= 32 {
+        *other_ctx.last_mut().unwrap() ^= 1;
+    } else {
+        other_ctx.push(1);
+    }
     let mut other_nonce = nonce;
     other_nonce[15] ^= 1;
     let mut other_key = key;
@@ -376,6 +386,61 @@ pub fn binding<T: Type>(out: &mut Out, rng: &mut Sm, inst: &Inst<T>, m: &T::Meas
     let other: Inst<T> = Inst::new(inst.typ.clone(), &inst.spec, inst.sum_lw, inst.na, inst.np, inst.alg ^ 1);
     let r = verify(out, &other, &honest_views(inst.na, &ctx, nonce, key), &rep.public, &rep.inputs, &no_vs, &no_msg);
     out.oracle(r.failed_at.is_some(), || format!("binding {} algorithm-id", inst.spec), || "verification completed under another algorithm id".into());
+}
+
+/// C18 over the library's other XOF (`XofHmacSha256Aes128`, reachable through the generic constructor): the
+/// context, nonce and verification key are bound there too.  Oracle only (the model's XOF is abstract).
+pub fn hmac_binding(out: &mut Out, rng: &mut Sm) {
+    use prio::vdaf::xof::XofHmacSha256Aes128;
+    use prio::vdaf::Client;
+    fn one<T: Type>(out: &mut Out, rng: &mut Sm, what: &str, typ: T, m: T::Measurement, ctx_len: usize)
+    where
+        T::Measurement: Clone,
+    {
+        let v = Prio3::<T, XofHmacSha256Aes128, 32>::new(2, 1, 0xFFFF_1001, typ).unwrap();
+        let ctx = rng.bytes(ctx_len);
+        let mut ctx2 = ctx.clone();
+        *ctx2.last_mut().unwrap() ^= 1;
+        let nonce: [u8; 16] = rng.bytes(16).try_into().unwrap();
+        let mut nonce2 = nonce;
+        nonce2[0] ^= 1;
+        let key: [u8; 32] = rng.bytes(32).try_into().unwrap();
+        let mut key2 = key;
+        key2[31] ^= 1;
+        let Ok((p, sh)) = v.shard(&ctx, &m, &nonce) else {
+            out.oracle(false, || format!("hmac-binding {} shard", what), || "sharding failed".into());
+            return;
+        };
+        let has_jr = v.verifier_len() > 0 && sh[0].get_encoded().map(|b| b.len()).unwrap_or(0) > 0 && p.get_encoded().map(|b| !b.is_empty()).unwrap_or(false);
+        // views: (ctx, nonce, key) per aggregator
+        let run = |c: [&[u8]; 2], n: [[u8; 16]; 2], k: [[u8; 32]; 2]| -> bool {
+            let i0 = v.verify_init(&k[0], c[0], 0, &(), &n[0], &p, &sh[0]);
+            let i1 = v.verify_init(&k[1], c[1], 1, &(), &n[1], &p, &sh[1]);
+            let (Ok((s0, v0)), Ok((s1, v1))) = (i0, i1) else { return false };
+            let Ok(msg) = v.verifier_shares_to_message(c[0], &(), [v0, v1]) else { return false };
+            matches!(v.verify_next(c[0], s0, msg.clone()), Ok(VerifyTransition::Finish(_))) && matches!(v.verify_next(c[1], s1, msg), Ok(VerifyTransition::Finish(_)))
+        };
+        out.oracle(run([&ctx, &ctx], [nonce, nonce], [key, key]), || format!("hmac-binding {} honest", what), || "honest report rejected".into());
+        let cases: Vec<(&str, bool)> = vec![
+            ("context at both", run([&ctx2, &ctx2], [nonce, nonce], [key, key])),
+            ("context at the leader", run([&ctx2, &ctx], [nonce, nonce], [key, key])),
+            ("context at the helper", run([&ctx, &ctx2], [nonce, nonce], [key, key])),
+            ("nonce at the leader", run([&ctx, &ctx], [nonce2, nonce], [key, key])),
+            ("key at the helper", run([&ctx, &ctx], [nonce, nonce], [key, key2])),
+        ];
+        for (label, accepted) in cases {
+            out.oracle(!accepted, || format!("hmac-binding {} ctx_len={} {}", what, ctx_len, label), || "verification completed under a mismatch".into());
+            out.count("binding.hmac");
+        }
+        if has_jr {
+            let acc = run([&ctx, &ctx], [nonce2, nonce2], [key, key]);
+            out.oracle(!acc, || format!("hmac-binding {} nonce at both", what), || "verification completed under a substituted nonce (type with joint randomness)".into());
+        }
+    }
+    one(out, rng, "count", Count::<Field64>::new(), true, 22);
+    one(out, rng, "count", Count::<Field64>::new(), false, 1);
+    one(out, rng, "hist", Histogram::<Field128, PS>::new(4, 2).unwrap(), 3, 22);
+    one(out, rng, "sumvec", SumVec::<Field128, PS>::new(3, 2, 2).unwrap(), vec![1, 3], 70);
 }
 
 /// C02: invalid measurements proved honestly, and alterations of every message
@@ -541,6 +606,36 @@ fn extremes(out: &mut Out, rng: &mut Sm, thorough: bool) {
         let want = [(max + 1) % p128, max - 1];
         end_to_end(out, rng, &il, &ms, &|r: &Vec<u128>| r[..] == want);
     }
+    // Average: the mean is the exact sum (as decoded for Sum) divided by the number of measurements,
+    // also when the sum needs more than 32 (or 53) bits
+    {
+        use prio::vdaf::{Client, Aggregator, Collector};
+        for (max, batch) in [(1u128 << 40, vec![1u128 << 31, (1 << 31) + 6]), (255, vec![17, 8, 255]), ((1 << 62) + 1, vec![1 << 62, (1 << 62) + 1, 5]), (1, vec![1, 0, 1, 1])] {
+            let v = Prio3::new_average(2, max).unwrap();
+            let mut aggs = [v.aggregate_init(&()), v.aggregate_init(&())];
+            let mut okall = true;
+            for (k, m) in batch.iter().enumerate() {
+                let nonce = [k as u8; 16];
+                let Ok((p, sh)) = v.shard(b"avg", m, &nonce) else { okall = false; continue };
+                let i0 = v.verify_init(&[3; 32], b"avg", 0, &(), &nonce, &p, &sh[0]);
+                let i1 = v.verify_init(&[3; 32], b"avg", 1, &(), &nonce, &p, &sh[1]);
+                let (Ok((s0, v0)), Ok((s1, v1))) = (i0, i1) else { okall = false; continue };
+                let Ok(msg) = v.verifier_shares_to_message(b"avg", &(), [v0, v1]) else { okall = false; continue };
+                if let (Ok(VerifyTransition::Finish(o0)), Ok(VerifyTransition::Finish(o1))) = (v.verify_next(b"avg", s0, msg.clone()), v.verify_next(b"avg", s1, msg)) {
+                    use prio::vdaf::Aggregatable;
+                    aggs[0].accumulate(&o0).unwrap();
+                    aggs[1].accumulate(&o1).unwrap();
+                } else {
+                    okall = false;
+                }
+            }
+            let res = v.unshard(&(), aggs.to_vec(), batch.len());
+            let sum: u128 = batch.iter().sum();
+            let want = (sum as u64 as f64) / (batch.len() as f64);
+            out.oracle(okall && matches!(res, Ok(r) if r == want), || format!("e2e average max={} batch={:?}", max, batch), || format!("mean {:?}, expected {}", res.as_ref().ok(), want));
+            out.count("e2e.average");
+        }
+    }
     let im = Inst::new(MultihotCountVec::<Field128, PS>::new(3, 3, 2).unwrap(), &format!("mhot:3:{}:{}:2", bits_of(3), lw(3)), 0, 2, 1, 5);
     end_to_end(out, rng, &im, &[vec![true, true, true], vec![false, false, false]], &|r: &Vec<u128>| r[..] == [1, 1, 1]);
 }
@@ -585,7 +680,8 @@ pub fn run(out: &mut Out, thorough: bool, seed: u64, prop: &str) {
                 })
                 .collect();
             // L1BoundSum
-            let (lm, ll, lc) = (7u128, 3usize, 4usize);
+            // chunk lengths that divide the encoded length, leave one element, leave one short
+            let (lm, ll, lc) = [(7u128, 3usize, 4usize), (7, 4, 7), (3, 2, 5)][(na as usize + np as usize + rep) % 3];
             let il = Inst::new(L1BoundSum::<Field128, PS>::new(lm, ll, lc).unwrap(), &format!("l1:{}:{}:{}:{}", ll, bits_of(lm), lw(lm), lc), 0, na, np, 0xFFFF1003);
             let l1s: Vec<Vec<u128>> = (0..batch_len)
                 .map(|_| {
@@ -617,13 +713,17 @@ pub fn run(out: &mut Out, thorough: bool, seed: u64, prop: &str) {
                     independence(out, &mut rng, &il, &l1s[0], &l1s[1]);
                 }
                 "C18" => {
-                    binding(out, &mut rng, &ic, &true);
-                    binding(out, &mut rng, &is, &(max / 2));
-                    binding(out, &mut rng, &ih, &(hl - 1));
-                    binding(out, &mut rng, &iv, &vs[0]);
+                    binding(out, &mut rng, &ic, &true, 4);
+                    binding(out, &mut rng, &is, &(max / 2), 4);
+                    binding(out, &mut rng, &ih, &(hl - 1), 4);
+                    binding(out, &mut rng, &iv, &vs[0], 4);
+                    // application-sized contexts (a task identifier is tens of bytes, a URL-like label more)
+                    let long = [0usize, 55, 66, 300][(na as usize + np as usize + rep) % 4];
+                    binding(out, &mut rng, &ic, &true, long);
+                    binding(out, &mut rng, &ih, &(hl - 1), [66usize, 167, 1000][(na as usize + rep) % 3]);
                     if thorough {
-                        binding(out, &mut rng, &im, &mhs[0]);
-                        binding(out, &mut rng, &il, &l1s[0]);
+                        binding(out, &mut rng, &im, &mhs[0], 4);
+                        binding(out, &mut rng, &il, &l1s[0], 129);
                     }
                 }
                 _ => {
@@ -644,10 +744,22 @@ pub fn run(out: &mut Out, thorough: bool, seed: u64, prop: &str) {
     }
     if prop == "C02" {
         crate::c16::prio3_misuse(out, &mut rng, thorough);
+        crate::c02::malicious_clients(out, &mut rng, thorough);
     }
     match prop {
-        "C17" => crate::pop::c17(out, &mut rng, thorough),
-        "C18" => crate::pop::c18(out, &mut rng, thorough),
+        "C17" => {
+            // the degenerate but accepted instance with a single aggregator: the leader share is still the
+            // encoding under a measurement-independent mask (the zero mask)
+            let i1 = Inst::new(Count::<Field64>::new(), "count", 0, 1, 1, 1);
+            independence(out, &mut rng, &i1, &true, &false);
+            let h1 = Inst::new(Histogram::<Field128, PS>::new(5, 2).unwrap(), "hist:5:2", 0, 1, 2, 3);
+            independence(out, &mut rng, &h1, &4, &1);
+            crate::pop::c17(out, &mut rng, thorough)
+        }
+        "C18" => {
+            hmac_binding(out, &mut rng);
+            crate::pop::c18(out, &mut rng, thorough)
+        }
         _ => {}
     }
     let _ = (fe::<Field64>(1), Field64::modulus());
